@@ -730,6 +730,7 @@ func schemaRunner(prop string, gopts SchemaGenOpts, rule string, post func(c *SC
 		if prop == "C12" && replay == "" {
 			modesWithDefaults(seed, n/4, meta)
 			convertedPointers(meta)
+			c12Discriminator(meta)
 		}
 		meta.NCases = len(cases)
 		meta.Files = writeCases(outDir, "From KV Require Import Model.Base Model.Json Model.Schema Exec.SchemaExec.", "scase", "judge_"+prop, terms, meta.Shard)
@@ -999,6 +1000,53 @@ func c19Discriminator(meta *Meta) {
 							"go_observation": msg, "judgement": "a message assembled from reasons alone (custom schema error function returning the reason) repeats a string of the rejected body: " + msg})
 						break
 					}
+				}
+			}
+		}
+	}
+}
+
+// C12, discriminators (Go side): the discriminator errors of a oneOf point into the validated value
+// and quote what is found there, in every mode, at the top and below a property
+func c12Discriminator(meta *Meta) {
+	cat := openapi3.NewObjectSchema().WithProperty("kind", openapi3.NewStringSchema()).WithProperty("lives", openapi3.NewIntegerSchema())
+	dog := openapi3.NewObjectSchema().WithProperty("kind", openapi3.NewStringSchema()).WithProperty("good", openapi3.NewBoolSchema())
+	base := &openapi3.Schema{OneOf: openapi3.SchemaRefs{{Ref: "#/components/schemas/Cat", Value: cat}, {Ref: "#/components/schemas/Dog", Value: dog}},
+		Discriminator: &openapi3.Discriminator{PropertyName: "kind", Mapping: map[string]string{"cat": "#/components/schemas/Cat", "dog": "#/components/schemas/Dog"}}}
+	values := []any{map[string]any{"kind": "bird"}, map[string]any{"kind": 7.0}, map[string]any{"kind": map[string]any{"x": "y"}}, map[string]any{"other": 1.0}}
+	for _, nested := range []string{"", "property", "item"} {
+		for _, v := range values {
+			s, val := base, v
+			switch nested {
+			case "property":
+				s = openapi3.NewObjectSchema().WithProperty("pet", base)
+				val = map[string]any{"pet": v}
+			case "item":
+				s = openapi3.NewArraySchema().WithItems(base)
+				val = []any{map[string]any{"kind": "cat"}, v}
+			}
+			var verdicts []bool
+			for _, extra := range [][]openapi3.SchemaValidationOption{nil, {openapi3.FailFast()}, {openapi3.MultiErrors()}} {
+				v0 := deepCopyJSON(val)
+				var err error
+				if p := catchPanic(func() { err = s.VisitJSON(v0, extra...) }); p != nil {
+					meta.GoViolation = append(meta.GoViolation, map[string]any{"signature": "panic", "cases": []any{map[string]any{"value": val}}, "go_observation": fmt.Sprint(p), "judgement": "VisitJSON panicked"})
+					continue
+				}
+				verdicts = append(verdicts, err == nil)
+				meta.Histogram["discriminator cases"]++
+				for _, e := range topErrors(err) {
+					if se, ok := e.(*openapi3.SchemaError); ok && se.SchemaField == "discriminator" && !pointerOK(v0, se) {
+						meta.GoViolation = append(meta.GoViolation, map[string]any{"signature": "pointer:discriminator", "cases": []any{map[string]any{"value": val, "where": nested}},
+							"go_observation": fmt.Sprintf("pointer=/%s quoted=%v reason=%s", strings.Join(se.JSONPointer(), "/"), se.Value, se.Reason),
+							"judgement": "a discriminator error does not quote the value found at its pointer"})
+					}
+				}
+			}
+			for _, ok := range verdicts {
+				if ok != verdicts[0] {
+					meta.GoViolation = append(meta.GoViolation, map[string]any{"signature": "verdict-depends-on-mode:discriminator", "cases": []any{map[string]any{"value": val}}, "go_observation": verdicts, "judgement": "modes disagree"})
+					break
 				}
 			}
 		}
